@@ -89,6 +89,13 @@ fn install_hooks() {
     })));
 }
 
+/// an accept(2) failure injected by the shim, logged in the same sequence as the server hooks
+fn accept_failed_hook() {
+    let s = SEQ.fetch_add(1, Ordering::SeqCst);
+    let mut g = EVENTS.lock().unwrap_or_else(|e| e.into_inner());
+    g.push((s, "srv.accept_failed", vec![]));
+}
+
 fn take_events() -> Vec<Value> {
     let mut g = EVENTS.lock().unwrap_or_else(|e| e.into_inner());
     g.drain(..)
@@ -820,12 +827,26 @@ fn limit_mode(inputs: &[Value], _seed: u64, si: usize, sn: usize, out: &mut Trac
                 }
                 std::thread::sleep(Duration::from_millis(30));
             }
+            if ending == "accept-error" {
+                // the next two accept(2) calls of the listener fail (out of descriptors): it backs off and
+                // retries, still holding the one permit it took for the connection it is waiting for
+                bcverif::shim::fail_next_accepts(2, libc::EMFILE, Some(accept_failed_hook));
+            }
             // one served connection ends in the given way
             let (mut victim, vc) = held.remove(0);
             match ending.as_str() {
-                "close" | "rst-in-backlog" => {
+                "close" | "rst-in-backlog" | "accept-error" => {
                     tl.close(&vc);
                     drop(victim)
+                }
+                "rejected-plus-half" => {
+                    // a well-formed frame that is not a command, the start of another frame in the same
+                    // segment, then a clean close
+                    tl.send(&vc, "bad");
+                    let _ = victim.write_all(b"*1\r\n$4\r\nPING\r\n*2\r\n$3\r\nGET\r\n$1\r\n");
+                    std::thread::sleep(Duration::from_millis(20));
+                    tl.close(&vc);
+                    drop(victim);
                 }
                 "half-frame" => {
                     tl.send(&vc, "half");
@@ -861,6 +882,10 @@ fn limit_mode(inputs: &[Value], _seed: u64, si: usize, sn: usize, out: &mut Trac
             // now the waiting client gets its slot
             let late = if early { true } else { let (b, e) = read_reply_bytes(&mut extra, 1, slow); e == "ok" && !b.is_empty() };
             steps.push(json!({"step": "extra-after-free", "ending": ending, "served": late}));
+            if ending == "accept-error" {
+                steps.push(json!({"step": "accept-failures-consumed", "left": bcverif::shim::accept_failures_left()}));
+                bcverif::shim::fail_next_accepts(0, 0, None);
+            }
             held.push((extra, extra_c));
             // and the limit still holds: yet another client must wait
             let (mut over, oc) = tl.connect(srv.addr).expect("connect");
